@@ -301,7 +301,7 @@ class Check(CheckBase):
     level = "exploration"
     title = "Every item `ls` shows can be addressed by the names shown; other paths say so"
     rule = ("trees whose names come from near-collision / hostile alphabets at every level (AKAI: 2 partitions x volume-name "
-            "pairs x file-name pairs; Roland: volume/performance/sample name pairs; CDDA: title pairs and triples); for every "
+            "pairs x file-name pairs; Roland: volume/performance/sample name pairs; CDDA: title pairs and triples, titles of 19..60 characters in every order of widths, single-entry directories); for every "
             "node with a non-blank printed name: path of printed names x separator {/,\\,\\\\} x blanks {none, around every "
             "token} x trailing separator {no,yes} must print what the canonical path prints, the right item (position-coded "
             "marker per leaf) and sibling names pairwise distinct; AKAI lower-case / colon-less forms may resolve to the right "
@@ -320,6 +320,12 @@ class Check(CheckBase):
         for vols in itertools.product(ad, repeat=2):
             cases.append({"fmt": "akai", "vols": list(vols), "files": ["SMP", "SMP.L"]})
         cases.append({"fmt": "akai", "vols": ["A", "A", "A."], "files": ["A L", "A", "A R", "A"]})
+        # names wider than the listing's default column (20 characters), in every order of widths: the printed table is the
+        # only thing a user can read the names from
+        def wide(n, tag):
+            return (tag + "x" * 60)[:n - 2] + "%02d" % n
+        for widths in ([30, 25], [25, 30], [21, 40, 22], [40, 21], [20, 21], [21, 20], [19, 45, 21, 33], [33, 21, 45, 19], [60, 22]):
+            cases.append({"fmt": "cdda", "titles": [wide(n, "T%d " % i) for i, n in enumerate(widths)]})
         # directories with exactly ONE entry, named by every hostile name
         for h in [x for x in HOSTILE if x not in ("/abs", "\xe9", "")]:
             cases.append({"fmt": "cdda", "titles": [h]})
